@@ -1111,11 +1111,12 @@ class SegmentationImage:
                              'array size in any dimension')
 
         border_mask = np.zeros(self.shape, dtype=bool)
-        for i in range(border_mask.ndim):
-            border_mask = border_mask.swapaxes(0, i)
-            border_mask[:border_width] = True
-            border_mask[-border_width:] = True
-            border_mask = border_mask.swapaxes(0, i)
+        if border_width > 0:  # -0 would select the entire axis
+            for i in range(border_mask.ndim):
+                border_mask = border_mask.swapaxes(0, i)
+                border_mask[:border_width] = True
+                border_mask[-border_width:] = True
+                border_mask = border_mask.swapaxes(0, i)
 
         self.remove_masked_labels(border_mask,
                                   partial_overlap=partial_overlap,
